@@ -387,6 +387,12 @@ func TestC08CasterStep(t *testing.T) {
 			add("deregister", 2, m.ruleDeregister)
 			add("send", 3, m.ruleSend)
 			add("add0", 1, m.ruleAdd0)
+			add("advance", 1, func(t *rapid.T) { // time passes while nothing else happens: ChanCaster has no notion of time
+				d := rapid.SampledFrom([]time.Duration{time.Millisecond, 3 * time.Second, 24 * time.Hour}).Draw(t, "advance")
+				time.Sleep(d)
+				m.tr("advance(%v)", d)
+				m.settle()
+			})
 			t.Repeat(vkit.NoStarve(acts, nil))
 			// teardown: finish an in-flight Send, deregister the rest
 			for _, s := range m.slots {
